@@ -688,6 +688,12 @@ impl Compiler {
                 self.compile_index_expression(expr)?;
             }
             Expression::Assign(expr) => {
+                // Only an identifier, an index expression or a property that
+                // was parsed as the target of this assignment stores the value.
+                // Anything else would leave both operands on the stack.
+                if !Self::is_assign_target(&expr.left) {
+                    return Err(CompileError::new("Invalid lvalue", expr.token.line));
+                }
                 // compile the expression on the right side of the assignment
                 self.compile_expression(*expr.right)?;
                 self.compile_expression(*expr.left)?;
@@ -719,6 +725,30 @@ impl Compiler {
             }
         }
         Ok(())
+    }
+
+    // An expression that was parsed as an assignment target and that
+    // compiles to a store (SetGlobal/SetLocal/SetFree, SetIndex, SetProp)
+    fn is_assign_target(expr: &Expression) -> bool {
+        match expr {
+            Expression::Ident(e) => matches!(e.context.access, AccessType::Set),
+            Expression::Index(e) => matches!(e.context.access, AccessType::Set),
+            Expression::Prop(e) => matches!(e.context.access, AccessType::Set),
+            _ => false,
+        }
+    }
+
+    // What may follow the dot: a property that is read ('obj.prop')
+    // or a property that is assigned to ('obj.prop = value')
+    fn is_property(expr: &Expression) -> bool {
+        match expr {
+            Expression::Prop(e) => matches!(e.context.access, AccessType::Get),
+            Expression::Assign(e) => match &*e.left {
+                Expression::Prop(p) => matches!(p.context.access, AccessType::Set),
+                _ => false,
+            },
+            _ => false,
+        }
     }
 
     fn compile_infix_expr(&mut self, operator: &str, line: usize) -> Result<(), CompileError> {
@@ -1209,6 +1239,11 @@ impl Compiler {
     }
 
     fn compile_dot_expression(&mut self, expr: DotExpr) -> Result<(), CompileError> {
+        // GetProp/SetProp replace the object on the stack. Any other
+        // expression after the dot would push a second value instead.
+        if !Self::is_property(&expr.property) {
+            return Err(CompileError::new("invalid property", expr.token.line));
+        }
         // Compile the expression whose property is being accessed
         self.compile_expression(*expr.left)?;
         // Compile the property expression
